@@ -102,6 +102,20 @@ ViewAdmits(a, v) ==
 ListViewIsSetOfSeries(a, v) ==
   a.kind = "list" /\ (IsSubSeq(RelText(v), ListText(a.items)) # (\E i \in 1..Len(a.items) : a.items[i] = v))
 
+\* _normalize_python_version_specifier: a python_version atom re-expressed as a python_full_version
+\* specifier, used when python_version and python_full_version atoms are merged
+\* (== / != get a wildcard, > X.Y becomes >= X.(Y+1), <= X.Y becomes < X.(Y+1); a one-segment
+\*  operand "X" compares like "X.0" - fix commit 1f6b13e).
+OneSegmentPadsToTwo == TRUE
+NormalizeView(a) ==
+  IF a.kind # "ver" \/ Len(a.rel) > 2 \/ a.op \in {"==*", "!=*"} THEN SpecifierView(a)
+  ELSE LET op  == StoredOp(a)
+           rel == IF Len(a.rel) = 1 /\ OneSegmentPadsToTwo THEN Append(a.rel, 0) ELSE a.rel
+       IN CASE op \in {"==", "!="} -> Translate(Clause(op \o "*", Final(rel)))
+            [] op = ">"  -> Translate(Clause(">=", Final(Bump(rel))))
+            [] op = "<=" -> Translate(Clause("<", Final(Bump(rel))))
+            [] OTHER     -> Translate(Clause(op, Final(rel)))
+
 \* MarkerExpression.from_specifier(name, range) for a simple range; "" = None
 PadTo3(rel) == IF Len(rel) >= 3 THEN rel ELSE rel \o [i \in 1..(3 - Len(rel)) |-> 0]
 FromRange(name, r) ==       \* r is a Pep440Ops range; result [ok, a]
@@ -142,6 +156,11 @@ ViewExact == phase = "evaluated" /\ item.k = "atom" /\ item.a.kind \in {"ver", "
    \A i \in 1..Len(EnvSeq) :
       LET v == EnvVersion(item.a.var, EnvSeq[i]) IN
         ListViewIsSetOfSeries(item.a, v) \/ ViewAdmits(item.a, v) = table[i]
+
+\* C02 (atom layer): the python_full_version reading of a python_version atom admits exactly the
+\* interpreters on which the atom is true
+NormalizeExact == phase = "evaluated" /\ item.k = "atom" /\ item.a.kind = "ver" /\ item.a.var = "python_version" =>
+   \A i \in 1..Len(EnvSeq) : InRanges(NormalizeView(item.a), Final(EnvSeq[i].pfv)) = table[i]
 
 \* Trees: and/or trees of depth <= 2 over a few atoms
 CONSTANT TreeAtomSel     \* a small subset of Atoms
